@@ -419,6 +419,15 @@ fn run_all(ctx: &mut Ctx) {
         t.check("L7 DateTime -> Option<i64>", None, "DateTime<ns>", "Option<i64>", format!("{v}"), catch(|| Cast::<Option<i64>>::cast(DateTime::<Nanosecond>::new(v))), &Some(v));
         t.check("L7 Time -> Option<i64>", None, "Time", "Option<i64>", format!("{v}"), catch(|| Cast::<Option<i64>>::cast(Time(v))), &Some(v));
         t.check("L6 Time -> i64", None, "Time", "i64", format!("{v}"), catch(|| Cast::<i64>::cast(Time(v))), &v);
+        // a duration of ~300 years does not fit in i64 nanoseconds but its microsecond count does
+        for days in [110_000i64, -110_000] {
+            let d = TimeDelta::parse(&format!("{days}d")).unwrap();
+            let us = days * 86_400_000_000;
+            t.check("L6 TimeDelta -> i64 (long)", None, "TimeDelta", "i64", format!("{days}d"), catch(|| Cast::<i64>::cast(d)), &us);
+            t.check("L7 TimeDelta -> Option<i64> (long)", None, "TimeDelta", "Option<i64>", format!("{days}d"), catch(|| Cast::<Option<i64>>::cast(d)), &Some(us));
+            t.check("L6 TimeDelta -> f64 (long)", None, "TimeDelta", "f64", format!("{days}d"), catch(|| Cast::<f64>::cast(d)), &(us as f64));
+            t.check("L7 TimeDelta -> Option<f64> (long)", None, "TimeDelta", "Option<f64>", format!("{days}d"), catch(|| Cast::<Option<f64>>::cast(d)), &Some(us as f64));
+        }
         // a month-free duration counts microseconds (a duration with months -> i64 is a documented panic, not driven)
         let d = TimeDelta::from(v * 1000);
         t.check("L6 TimeDelta -> i64", None, "TimeDelta", "i64", format!("{v}us"), catch(|| Cast::<i64>::cast(d)), &v);
